@@ -5,11 +5,11 @@
 //! rendered by the real engine here and (b) evaluated by the Lean model (`drive_c06`).
 //!
 //! line    := fam ntmpl { tmpl }
-//! tmpl    := "T" nlayout {item} nblocks { bname nitems {item} }
+//! tmpl    := "T" ext nlayout {item} nblocks { bname nitems {item} }      (name = t<i>.<ext>)
 //! item    := "t" text | "b" n | "s" | "x" exec(0/1) mode(s/d/c) t | "i" ign k names..
 //!          | "v" v | "set" v str | "mac" v str | "imp" t v | "from" t name alias
 //!          | "attr" v a | "keys" v | "call" v | "req" | "ssuper" v | "sself" v m | "self" m
-//!          | "for" v k strs.. nitems items.. | "inmac" m arg str nitems items..
+//!          | "for" v k strs.. nitems items.. | "inmac" m arg str nitems items.. | "ae" mode nitems items..
 //!
 //! Result: `ok:<output>` | `err:<kind chain>` | `panic` | `hang` | `crash:<status>` | `syntax:<kind>`
 //! | `skipped` (after three hangs the remaining cases are not run).
@@ -47,13 +47,23 @@ enum Item {
     SelfCall(usize),
     Loop(usize, Vec<String>, Vec<Item>),
     InMacro(usize, usize, String, Vec<Item>),
+    /// `{% autoescape "mode" %}…{% endautoescape %}`
+    AutoEsc(String, Vec<Item>),
 }
 use Item::*;
 
-#[derive(Clone, Debug, Default)]
+#[derive(Clone, Debug)]
 struct Tmpl {
     layout: Vec<Item>,
     blocks: BTreeMap<usize, Vec<Item>>,
+    /// the template is named `t<i>.<ext>`; the extension selects the initial auto-escape mode
+    ext: String,
+}
+
+impl Default for Tmpl {
+    fn default() -> Tmpl {
+        Tmpl { layout: vec![], blocks: BTreeMap::new(), ext: "txt".into() }
+    }
 }
 
 #[derive(Clone, Debug)]
@@ -161,6 +171,11 @@ fn ser_item(it: &Item, out: &mut Vec<String>) {
             out.push(val.clone());
             ser_items(body, out);
         }
+        AutoEsc(mode, body) => {
+            out.push("ae".into());
+            out.push(mode.clone());
+            ser_items(body, out);
+        }
     }
 }
 
@@ -168,6 +183,7 @@ fn ser_case(c: &Case) -> String {
     let mut out = vec![c.fam.clone(), c.tmpls.len().to_string()];
     for t in &c.tmpls {
         out.push("T".into());
+        out.push(t.ext.clone());
         ser_items(&t.layout, &mut out);
         out.push(t.blocks.len().to_string());
         for (n, body) in &t.blocks {
@@ -230,6 +246,7 @@ impl<'a> Toks<'a> {
                 Loop(v, vals, self.items()?)
             }
             "inmac" => InMacro(self.num()?, self.num()?, self.next()?.to_string(), self.items()?),
+            "ae" => AutoEsc(self.next()?.to_string(), self.items()?),
             other => return Err(format!("bad item tag {other}")),
         })
     }
@@ -244,6 +261,7 @@ fn parse_case(line: &str) -> Result<Case, String> {
         if tk.next()? != "T" {
             return Err("T expected".into());
         }
+        let ext = tk.next()?.to_string();
         let layout = tk.items()?;
         let nb = tk.num()?;
         let mut blocks = BTreeMap::new();
@@ -251,13 +269,18 @@ fn parse_case(line: &str) -> Result<Case, String> {
             let name = tk.num()?;
             blocks.insert(name, tk.items()?);
         }
-        tmpls.push(Tmpl { layout, blocks });
+        tmpls.push(Tmpl { layout, blocks, ext });
     }
     Ok(Case { fam, tmpls })
 }
 
 // ------------------------------------------------------------------ pretty printer (trusted, small)
-fn print_items(t: &Tmpl, items: &[Item], used: &mut Vec<usize>, out: &mut String) {
+fn tname(names: &[String], i: usize) -> String {
+    names.get(i).cloned().unwrap_or_else(|| format!("t{i}.txt"))
+}
+
+fn print_items(names: &[String], t: &Tmpl, items: &[Item], used: &mut Vec<usize>, out: &mut String) {
+    let tnames = names;
     for it in items {
         match it {
             Text(s) => out.push_str(s),
@@ -268,7 +291,7 @@ fn print_items(t: &Tmpl, items: &[Item], used: &mut Vec<usize>, out: &mut String
                     out.push_str(&format!("{{% block b{n} required %}}{{% endblock %}}"));
                 } else {
                     out.push_str(&format!("{{% block b{n} %}}"));
-                    print_items(t, body, used, out);
+                    print_items(names, t, body, used, out);
                     out.push_str("{% endblock %}");
                 }
             }
@@ -278,49 +301,55 @@ fn print_items(t: &Tmpl, items: &[Item], used: &mut Vec<usize>, out: &mut String
             SelfCall(m) => out.push_str(&format!("{{{{ self.b{m}() }}}}")),
             Super => out.push_str("{{ super() }}"),
             Extends { exec, mode, t } => match mode {
-                's' => out.push_str(&format!("{{% extends \"t{t}\" %}}")),
+                's' => out.push_str(&format!("{{% extends \"{}\" %}}", tname(names, *t))),
                 'd' => out.push_str(&format!("{{% extends dyn{t} %}}")),
                 _ => out.push_str(&format!(
-                    "{{% if c{} %}}{{% extends \"t{t}\" %}}{{% endif %}}",
-                    *exec as u8
+                    "{{% if c{} %}}{{% extends \"{}\" %}}{{% endif %}}",
+                    *exec as u8,
+                    tname(names, *t)
                 )),
             },
             Incl { names, ign } => {
                 let ig = if *ign { " ignore missing" } else { "" };
                 if names.len() == 1 {
-                    out.push_str(&format!("{{% include \"t{}\"{ig} %}}", names[0]));
+                    out.push_str(&format!("{{% include \"{}\"{ig} %}}", tname(tnames, names[0])));
                 } else {
-                    let l: Vec<String> = names.iter().map(|n| format!("\"t{n}\"")).collect();
+                    let l: Vec<String> = names.iter().map(|n| format!("\"{}\"", tname(tnames, *n))).collect();
                     out.push_str(&format!("{{% include [{}]{ig} %}}", l.join(", ")));
                 }
             }
             EmitVar(v) => out.push_str(&format!("{{{{ v{v} }}}}")),
             SetVar(v, s) => out.push_str(&format!("{{% set v{v} = \"{s}\" %}}")),
             DefMacro(v, s) => out.push_str(&format!("{{% macro v{v}() %}}{s}{{% endmacro %}}")),
-            ImportAs(t, v) => out.push_str(&format!("{{% import \"t{t}\" as v{v} %}}")),
-            FromImport(t, n, a) => out.push_str(&format!("{{% from \"t{t}\" import v{n} as v{a} %}}")),
+            ImportAs(t, v) => out.push_str(&format!("{{% import \"{}\" as v{v} %}}", tname(names, *t))),
+            FromImport(t, n, a) => out.push_str(&format!("{{% from \"{}\" import v{n} as v{a} %}}", tname(names, *t))),
             EmitAttr(v, a) => out.push_str(&format!("{{{{ v{v}.v{a} }}}}")),
             EmitKeys(v) => out.push_str(&format!("{{{{ v{v}|sort|join(\",\") }}}}")),
             CallVar(v) => out.push_str(&format!("{{{{ v{v}() }}}}")),
             Loop(v, vals, body) => {
                 let l: Vec<String> = vals.iter().map(|s| format!("\"{s}\"")).collect();
                 out.push_str(&format!("{{% for v{v} in [{}] %}}", l.join(", ")));
-                print_items(t, body, used, out);
+                print_items(names, t, body, used, out);
                 out.push_str("{% endfor %}");
             }
             InMacro(m, arg, val, body) => {
                 out.push_str(&format!("{{% macro v{m}(v{arg}) %}}"));
-                print_items(t, body, used, out);
+                print_items(names, t, body, used, out);
                 out.push_str(&format!("{{% endmacro %}}{{{{ v{m}(\"{val}\") }}}}"));
+            }
+            AutoEsc(mode, body) => {
+                out.push_str(&format!("{{% autoescape \"{mode}\" %}}"));
+                print_items(names, t, body, used, out);
+                out.push_str("{% endautoescape %}");
             }
         }
     }
 }
 
-fn source_of(t: &Tmpl) -> String {
+fn source_of(names: &[String], t: &Tmpl) -> String {
     let mut out = String::new();
     let mut used = vec![];
-    print_items(t, &t.layout, &mut used, &mut out);
+    print_items(names, t, &t.layout, &mut used, &mut out);
     let mut u = used.clone();
     u.sort();
     let keys: Vec<usize> = t.blocks.keys().copied().collect();
@@ -368,32 +397,68 @@ fn innermost_detail(e: &Error) -> String {
     "other".to_string()
 }
 
-/// returns (result, detail tag for histograms)
-fn run_case(c: &Case) -> (String, String) {
-    let sources: Vec<String> = c.tmpls.iter().map(source_of).collect();
+/// the render context of every case; `v0` carries every character the modes treat differently
+const V0: &str = "C<&\"'/\u{e9}0";
+
+fn names_of(c: &Case) -> Vec<String> {
+    c.tmpls.iter().enumerate().map(|(i, t)| format!("t{i}.{}", t.ext)).collect()
+}
+
+fn render_named(env: &Environment, names: &[String], name: &str) -> (String, String) {
+    let mut ctx: BTreeMap<String, Value> = BTreeMap::new();
+    ctx.insert("c1".into(), Value::from(true));
+    ctx.insert("c0".into(), Value::from(false));
+    ctx.insert("v0".into(), Value::from(V0));
+    for i in 0..100 {
+        ctx.insert(format!("dyn{i}"), Value::from(tname(names, i)));
+    }
+    let t = env.get_template(name).unwrap();
+    match t.render(Value::from(ctx)) {
+        Ok(s) => (format!("ok:{s}"), "ok".to_string()),
+        Err(e) => (format!("err:{}", kind_chain(&e)), innermost_detail(&e)),
+    }
+}
+
+/// returns (result, detail tag for histograms, metamorphic verdict).  The metamorphic check:
+/// a wrapper template of a *different* auto-escape mode that consists of `{% include "t0…" %}`
+/// (sometimes inside an `{% autoescape %}` block) must render exactly what t0 renders on its own
+/// with the same variables (an error gets one `BadInclude` in front).
+fn run_case(c: &Case, variant: usize) -> (String, String, String) {
+    let names = names_of(c);
+    let sources: Vec<String> = c.tmpls.iter().map(|t| source_of(&names, t)).collect();
     let r = guarded(|| {
         let mut env = Environment::new();
         for (i, s) in sources.iter().enumerate() {
-            if let Err(e) = env.add_template_owned(format!("t{i}"), s.clone()) {
-                return (format!("syntax:{}", error_kind_name(&e)), "syntax".to_string());
+            if let Err(e) = env.add_template_owned(names[i].clone(), s.clone()) {
+                return (format!("syntax:{}", error_kind_name(&e)), "syntax".to_string(), "skip".to_string());
             }
         }
-        let mut ctx: BTreeMap<String, Value> = BTreeMap::new();
-        ctx.insert("c1".into(), Value::from(true));
-        ctx.insert("c0".into(), Value::from(false));
-        ctx.insert("v0".into(), Value::from("C0"));
-        for i in 0..100 {
-            ctx.insert(format!("dyn{i}"), Value::from(format!("t{i}")));
+        let (res, detail) = render_named(&env, &names, &names[0]);
+        if detail == "recursion-limit" {
+            // ten more units of depth in front of a run that hits the limit: not comparable
+            return (res, detail, "skip".to_string());
         }
-        let t = env.get_template("t0").unwrap();
-        match t.render(Value::from(ctx)) {
-            Ok(s) => (format!("ok:{s}"), "ok".to_string()),
-            Err(e) => (format!("err:{}", kind_chain(&e)), innermost_detail(&e)),
-        }
+        let wexts = ["html", "txt", "json", "xml.j2"];
+        let wext = wexts[variant % 4];
+        let inc = format!("{{% include \"{}\" %}}", names[0]);
+        let wsrc = match (variant / 4) % 3 {
+            0 => inc,
+            1 => format!("{{% autoescape \"html\" %}}{inc}{{% endautoescape %}}"),
+            _ => format!("{{% autoescape \"none\" %}}{inc}{{% endautoescape %}}"),
+        };
+        let wname = format!("w.{wext}");
+        env.add_template_owned(wname.clone(), wsrc).unwrap();
+        let (wres, _) = render_named(&env, &names, &wname);
+        let expect = match res.strip_prefix("err:") {
+            Some(chain) => format!("err:BadInclude>{chain}"),
+            None => res.clone(),
+        };
+        let meta = if wres == expect { format!("same:{wext}") } else { format!("diff:{wname}:{wres}") };
+        (res, detail, meta)
     });
     match r {
         Ok(x) => x,
-        Err(msg) => ("panic".to_string(), format!("panic:{}", msg.replace(['\t', '\n'], " "))),
+        Err(msg) => ("panic".to_string(), format!("panic:{}", msg.replace(['\t', '\n'], " ")), "skip".to_string()),
     }
 }
 
@@ -491,6 +556,7 @@ fn aux_templates(len: usize) -> Vec<Tmpl> {
     v.push(Tmpl {
         layout: vec![Text("<X:".into()), EmitVar(0), Text(":".into()), EmitVar(1), Text(">".into())],
         blocks: BTreeMap::new(),
+        ext: "html".into(),
     });
     // B: extends the chain's root (spurious cycle candidate), overrides b0 and b2
     let mut b = Tmpl::default();
@@ -502,33 +568,37 @@ fn aux_templates(len: usize) -> Vec<Tmpl> {
         CallBlock(2),
     ];
     b.blocks.insert(0, vec![tx("B:b0".into()), Super]);
-    b.blocks.insert(2, vec![tx("B:b2".into())]);
+    b.blocks.insert(2, vec![tx("B:b2".into()), EmitVar(0)]);
+    b.ext = "xml".into();
     v.push(b);
     // Q extends P
     let mut q = Tmpl::default();
     q.layout = vec![Extends { exec: true, mode: 's', t: len + AUX_P }, CallBlock(0), CallBlock(1)];
     q.blocks.insert(0, vec![Super, tx("Q:b0".into())]);
-    q.blocks.insert(1, vec![tx("Q:b1".into())]);
+    q.blocks.insert(1, vec![tx("Q:b1".into()), EmitVar(0)]);
+    q.ext = "json".into();
     v.push(q);
     let mut p = Tmpl::default();
     p.layout = vec![tx("P:top".into()), CallBlock(0), tx("P:end".into())];
     p.blocks.insert(0, vec![tx("P:b0".into()), EmitVar(1)]);
+    p.ext = "html.j2".into();
     v.push(p);
     // M
     let mut m = Tmpl::default();
     m.layout = vec![
         tx("M:t".into()),
-        SetVar(2, "M2a".into()),
+        SetVar(2, "M<2a".into()),
         DefMacro(3, "<M:mac3>".into()),
-        Loop(9, vec!["a".into()], vec![SetVar(4, "L4".into())]),
+        Loop(9, vec!["a".into()], vec![SetVar(4, "L<4".into())]),
         CallBlock(7),
-        SetVar(2, "M2".into()),
+        SetVar(2, "M&2".into()),
         EmitVar(1),
     ];
     m.blocks.insert(7, vec![SetVar(5, "B5".into()), tx("M:b7".into())]);
+    m.ext = "htm".into();
     v.push(m);
     // S
-    v.push(Tmpl { layout: vec![tx("S".into()), Super], blocks: BTreeMap::new() });
+    v.push(Tmpl { layout: vec![tx("S".into()), Super], blocks: BTreeMap::new(), ext: "txt".into() });
     // I
     v.push(Tmpl {
         layout: vec![
@@ -538,11 +608,13 @@ fn aux_templates(len: usize) -> Vec<Tmpl> {
             tx("I:z".into()),
         ],
         blocks: BTreeMap::new(),
+        ext: "js".into(),
     });
     // E
     let mut e = Tmpl::default();
     e.layout = vec![tx("E:t".into()), CallBlock(7), SetVar(2, "E2".into())];
     e.blocks.insert(7, vec![tx("E:b7".into()), Incl { names: vec![len + AUX_N], ign: false }]);
+    e.ext = "yaml".into();
     v.push(e);
     v
 }
@@ -570,7 +642,7 @@ fn snippet(k: usize, len: usize) -> Vec<Item> {
         14 => vec![ImportAs(miss, 8)],
         15 => vec![FromImport(miss, 2, 7)],
         16 => vec![Incl { names: vec![a(AUX_S)], ign: false }],
-        17 => vec![SetVar(1, "S1".into()), Incl { names: vec![a(AUX_X)], ign: false }],
+        17 => vec![SetVar(1, "S<1&".into()), Incl { names: vec![a(AUX_X)], ign: false }],
         18 => vec![Incl { names: vec![a(AUX_X), miss], ign: true }],
         19 => vec![ImportAs(a(AUX_I), 8), EmitKeys(8), EmitAttr(8, 6)],
         20 => vec![ImportAs(a(AUX_Q), 8), Text("[".into()), EmitKeys(8), Text("]".into())],
@@ -589,8 +661,11 @@ fn snippet(k: usize, len: usize) -> Vec<Item> {
 fn wrap(kind: usize, items: Vec<Item>) -> Vec<Item> {
     match kind {
         0 => items,
-        1 => vec![Loop(1, vec!["i1".into(), "i2".into()], items)],
-        _ => vec![InMacro(9, 1, "a1".into(), items)],
+        1 => vec![Loop(1, vec!["i<1".into(), "i&2".into()], items)],
+        2 => vec![InMacro(9, 1, "a<1>".into(), items)],
+        3 => vec![AutoEsc("html".into(), items)],
+        4 => vec![AutoEsc("json".into(), items)],
+        _ => vec![AutoEsc("none".into(), items)],
     }
 }
 
@@ -656,6 +731,22 @@ fn random_chain(rng: &mut Rng, extras: bool) -> Case {
         s.pre_block.push(rng.chance(1, 8));
     }
     let mut tmpls = build_chain(&s);
+    // mixed template names: the extension selects the initial auto-escape mode; a variable in
+    // some block bodies makes the mode visible through extends / super / block calls
+    const EXTS: [&str; 10] = ["txt", "html", "json", "xml", "js", "html.j2", "txt.j2", "htm", "yaml.jinja", "j2"];
+    for t in tmpls.iter_mut() {
+        t.ext = rng.pick(&EXTS).to_string();
+        for body in t.blocks.values_mut() {
+            if !matches!(body.as_slice(), [Required]) && rng.chance(1, 3) {
+                let pos = rng.below(body.len() as u64 + 1) as usize;
+                body.insert(pos, EmitVar(0));
+            }
+        }
+        if rng.chance(1, 4) {
+            let pos = rng.below(t.layout.len() as u64 + 1) as usize;
+            t.layout.insert(pos, EmitVar(0));
+        }
+    }
     let mut fam = format!("chain{len}");
     if extras {
         tmpls.extend(aux_templates(len));
@@ -663,9 +754,12 @@ fn random_chain(rng: &mut Rng, extras: bool) -> Case {
         fam.push_str("+x");
         for _ in 0..n_extra {
             let k = rng.below(N_SNIPPETS as u64) as usize;
-            let w = match rng.below(5) {
+            let w = match rng.below(8) {
                 0 => 1,
                 1 => 2,
+                2 => 3,
+                3 => 4,
+                4 => 5,
                 _ => 0,
             };
             let items = wrap(w, snippet(k, len));
@@ -698,7 +792,7 @@ fn refs(items: &[Item], out: &mut Vec<usize>) {
             Extends { t, .. } => out.push(*t),
             Incl { names, .. } => out.extend(names.iter().copied()),
             ImportAs(t, _) | FromImport(t, _, _) => out.push(*t),
-            Loop(_, _, b) | InMacro(_, _, _, b) => refs(b, out),
+            Loop(_, _, b) | InMacro(_, _, _, b) | AutoEsc(_, b) => refs(b, out),
             _ => {}
         }
     }
@@ -766,7 +860,7 @@ fn all_small(out: &mut Vec<Case>, thorough: bool) {
 }
 
 fn simple(layout: Vec<Item>, blocks: Vec<(usize, Vec<Item>)>) -> Tmpl {
-    Tmpl { layout, blocks: blocks.into_iter().collect() }
+    Tmpl { layout, blocks: blocks.into_iter().collect(), ext: "txt".into() }
 }
 
 fn ext(mode: char, t: usize) -> Item {
@@ -1011,8 +1105,66 @@ fn regressions(out: &mut Vec<Case>) {
             vec![SetVar(1, "mine".into()), FromImport(1, name, 7), Text("[".into()), EmitVar(7), Text("]".into())],
             vec![],
         );
-        let t1 = simple(vec![SetVar(2, "M2".into())], vec![]);
+        let t1 = simple(vec![SetVar(2, "M&2".into())], vec![]);
         out.push(Case { fam: "regress".into(), tmpls: vec![t0, t1] });
+    }
+}
+
+/// auto-escape modes across template boundaries: includer × included extension × placement ×
+/// include / import / from-import, and child × parent extension for extends / super
+fn mode_families(out: &mut Vec<Case>) {
+    let exts = ["txt", "html", "json", "xml.j2"];
+    for a in exts {
+        for b in exts {
+            for place in 0..6usize {
+                for kind in 0..3usize {
+                    let use_it: Vec<Item> = match kind {
+                        0 => vec![Incl { names: vec![1], ign: false }],
+                        1 => vec![ImportAs(1, 8), Text("[".into()), EmitAttr(8, 2), Text("]".into())],
+                        _ => vec![FromImport(1, 2, 7), Text("[".into()), EmitVar(7), Text("]".into())],
+                    };
+                    let mut t0 = Tmpl { ext: a.into(), ..Tmpl::default() };
+                    t0.layout.push(Text("<a:".into()));
+                    t0.layout.push(EmitVar(0));
+                    t0.layout.push(Text(">".into()));
+                    match place {
+                        0 => t0.layout.extend(use_it),
+                        1 => {
+                            t0.layout.push(CallBlock(0));
+                            t0.blocks.insert(0, use_it);
+                        }
+                        k => t0.layout.extend(wrap(k - 1, use_it)),
+                    }
+                    t0.layout.push(EmitVar(0));
+                    let t1 = Tmpl {
+                        ext: b.into(),
+                        layout: vec![Text("<b:".into()), EmitVar(0), SetVar(2, "m<&2".into()), EmitVar(2), Text(">".into())],
+                        blocks: BTreeMap::new(),
+                    };
+                    out.push(Case { fam: "modes-include".into(), tmpls: vec![t0, t1] });
+                }
+            }
+        }
+    }
+    for a in exts {
+        for b in exts {
+            for variant in 0..3usize {
+                let mut t0 = Tmpl { ext: a.into(), ..Tmpl::default() };
+                t0.layout = vec![EmitVar(0), ext('s', 1), CallBlock(0)];
+                t0.blocks.insert(
+                    0,
+                    match variant {
+                        0 => vec![Text("<c0:".into()), EmitVar(0), Text(">".into()), Super],
+                        1 => vec![SetSuper(5), Text("<c0:".into()), EmitVar(5), Text(">".into())],
+                        _ => vec![AutoEsc("html".into(), vec![Super, EmitVar(0)])],
+                    },
+                );
+                let mut t1 = Tmpl { ext: b.into(), ..Tmpl::default() };
+                t1.layout = vec![Text("<p:".into()), EmitVar(0), Text(">".into()), CallBlock(0), SetSelf(6, 0), EmitVar(6)];
+                t1.blocks.insert(0, vec![Text("<p0:".into()), EmitVar(0), Text(">".into())]);
+                out.push(Case { fam: "modes-extends".into(), tmpls: vec![t0, t1] });
+            }
+        }
     }
 }
 
@@ -1021,6 +1173,7 @@ fn cases(tier: &str) -> Vec<Case> {
     let mut rng = Rng::new(seed_from_env());
     let mut out = vec![];
     regressions(&mut out);
+    mode_families(&mut out);
     error_families(&mut out);
     all_small(&mut out, thorough);
     let n_plain = if thorough { 50_000 } else { 2_500 };
@@ -1039,9 +1192,10 @@ fn work(tier: &str, start: usize) {
     let cs = cases(tier);
     let out = std::io::stdout();
     let mut out = out.lock();
-    for c in &cs[start.min(cs.len())..] {
-        let (r, detail) = run_case(c);
-        writeln!(out, "{}\t{}\t{}", ser_case(c), r, detail).unwrap();
+    let first = start.min(cs.len());
+    for (k, c) in cs[first..].iter().enumerate() {
+        let (r, detail, meta) = run_case(c, first + k);
+        writeln!(out, "{}\t{}\t{}\t{}", ser_case(c), r, detail, meta).unwrap();
         out.flush().unwrap();
     }
 }
@@ -1061,7 +1215,7 @@ fn supervise(tier: &str) {
         if hangs >= 3 {
             // the engine hangs again and again: every further hang would cost the full timeout
             while next < total {
-                writeln!(stdout, "{}\tskipped\tskipped-after-3-hangs", lines[next]).unwrap();
+                writeln!(stdout, "{}\tskipped\tskipped-after-3-hangs\tskip", lines[next]).unwrap();
                 next += 1;
             }
             break;
@@ -1098,7 +1252,7 @@ fn supervise(tier: &str) {
                     let _ = child.wait();
                     hangs += 1;
                     if next < total {
-                        writeln!(stdout, "{}\thang\thang", lines[next]).unwrap();
+                        writeln!(stdout, "{}\thang\thang\tskip", lines[next]).unwrap();
                         next += 1;
                     }
                     break;
@@ -1107,7 +1261,7 @@ fn supervise(tier: &str) {
                     let st = child.wait().ok();
                     if next < total {
                         let code = st.map(|s| format!("{s}")).unwrap_or_default().replace([' ', '\t'], "_");
-                        writeln!(stdout, "{}\tcrash:{}\tcrash", lines[next], code).unwrap();
+                        writeln!(stdout, "{}\tcrash:{}\tcrash\tskip", lines[next], code).unwrap();
                         next += 1;
                     }
                     break;
@@ -1123,7 +1277,7 @@ fn supervise(tier: &str) {
         if restarts > 200 {
             // the engine dies on (nearly) every case: report the rest as crashed and stop
             while next < total {
-                writeln!(stdout, "{}\tcrash:too-many-restarts\tcrash", lines[next]).unwrap();
+                writeln!(stdout, "{}\tcrash:too-many-restarts\tcrash\tskip", lines[next]).unwrap();
                 next += 1;
             }
         }
@@ -1159,12 +1313,17 @@ fn main() {
             match parse_case(&line) {
                 Ok(c) => {
                     if cmd == "src" {
+                        let names = names_of(&c);
                         for (i, t) in c.tmpls.iter().enumerate() {
-                            println!("t{i}: {}", source_of(t));
+                            println!("{}: {}", names[i], source_of(&names, t));
                         }
                     }
-                    let (r, d) = run_case(&c);
-                    println!("{}\t{}\t{}", ser_case(&c), r, d);
+                    for variant in 0..12 {
+                        let (r, d, m) = run_case(&c, variant);
+                        if variant == 0 || m.starts_with("diff") {
+                            println!("{}\t{}\t{}\t{}", ser_case(&c), r, d, m);
+                        }
+                    }
                 }
                 Err(e) => {
                     eprintln!("bad case: {e}");
